@@ -75,31 +75,31 @@ var kernelRecv = map[string]reflect.Type{
 }
 
 var kernelFree = map[string]interface{}{
-	"model3d.NewMatrix3Columns":    model3d.NewMatrix3Columns,
-	"model3d.NewRect":              model3d.NewRect,
-	"model3d.NewSegment":           model3d.NewSegment,
-	"model3d.Ones":                 model3d.Ones,
-	"model3d.X":                    model3d.X,
-	"model3d.XY":                   model3d.XY,
-	"model3d.XYZ":                  model3d.XYZ,
-	"model3d.XZ":                   model3d.XZ,
-	"model3d.Y":                    model3d.Y,
-	"model3d.YZ":                   model3d.YZ,
-	"model3d.Z":                    model3d.Z,
-	"model2d.NewCoordArray":        model2d.NewCoordArray,
-	"model2d.NewMatrix2Columns":    model2d.NewMatrix2Columns,
-	"model2d.NewRect":              model2d.NewRect,
-	"model2d.Ones":                 model2d.Ones,
-	"model2d.X":                    model2d.X,
-	"model2d.XY":                   model2d.XY,
-	"model2d.Y":                    model2d.Y,
-	"render3d.NewCameraAt":         render3d.NewCameraAt,
-	"render3d.ClampColor":          render3d.ClampColor,
-	"render3d.NewColor":            render3d.NewColor,
-	"render3d.NewColorRGB":         render3d.NewColorRGB,
-	"numerical.NewMatrix2Columns":  numerical.NewMatrix2Columns,
-	"numerical.NewMatrix3Columns":  numerical.NewMatrix3Columns,
-	"numerical.NewMatrix4Identity": numerical.NewMatrix4Identity,
+	"model3d.NewMatrix3Columns":          model3d.NewMatrix3Columns,
+	"model3d.NewRect":                    model3d.NewRect,
+	"model3d.NewSegment":                 model3d.NewSegment,
+	"model3d.Ones":                       model3d.Ones,
+	"model3d.X":                          model3d.X,
+	"model3d.XY":                         model3d.XY,
+	"model3d.XYZ":                        model3d.XYZ,
+	"model3d.XZ":                         model3d.XZ,
+	"model3d.Y":                          model3d.Y,
+	"model3d.YZ":                         model3d.YZ,
+	"model3d.Z":                          model3d.Z,
+	"model2d.NewCoordArray":              model2d.NewCoordArray,
+	"model2d.NewMatrix2Columns":          model2d.NewMatrix2Columns,
+	"model2d.NewRect":                    model2d.NewRect,
+	"model2d.Ones":                       model2d.Ones,
+	"model2d.X":                          model2d.X,
+	"model2d.XY":                         model2d.XY,
+	"model2d.Y":                          model2d.Y,
+	"render3d.NewCameraAt":               render3d.NewCameraAt,
+	"render3d.ClampColor":                render3d.ClampColor,
+	"render3d.NewColor":                  render3d.NewColor,
+	"render3d.NewColorRGB":               render3d.NewColorRGB,
+	"numerical.NewMatrix2Columns":        numerical.NewMatrix2Columns,
+	"numerical.NewMatrix3Columns":        numerical.NewMatrix3Columns,
+	"numerical.NewMatrix4Identity":       numerical.NewMatrix4Identity,
 	"model3d.NewConvexPolytopeRect":      model3d.NewConvexPolytopeRect,
 	"model2d.NewConvexPolytopeRect":      model2d.NewConvexPolytopeRect,
 	"model3d.QuarticMetaballFalloffFunc": model3d.QuarticMetaballFalloffFunc,
